@@ -117,6 +117,12 @@ CHECKS = {
  'C44': (['asan'], 'event-log monitor: every generated expression printed by latex / mathml / unicode / julia_str / sbml under ASan; MathML fed to an XML parser (expat), LaTeX brace and \\left/\\right balance counted, parse_sbml(sbml(e)) compared with e by eq and, when not eq, by value with the mpmath evaluator',
          'Expressions of depth <= 4 over every node class incl. symbol names with spaces, quotes, non-ASCII and XML markup characters; a separate generator for the SBML fragment (arithmetic, powers, 30 functions, log with base, max/min, piecewise, relationals, logic, pi, E).',
          'A printer may decline a type with NotImplementedError / "not supported"; doubles are compared to the 15 significant digits the printers write.', 'DESIGN.md 3/C44'),
+ 'C03': (['asan'], 'assertion-hook monitor (H1 in recording mode, release semantics) + independent structural rules on every emitted tree, over mixed API workloads and the focused generators of the other monitors; every distinct assertion site or broken rule is a violation',
+         'Programs of 5-9 calls mixing construction, arithmetic, functions, expand, diff, subs (incl. oo / zoo / nan), simplify, rewrites, series, solve, sets, logic, polynomials, parse(str(e)), loads(dumps(e)), matrix expressions.',
+         'Memory-safety outcomes of the same programs are judged by C40.', 'DESIGN.md 3/C03'),
+ 'C40': (['asan'], 'sanitizer monitor (ASan+UBSan+LSan) + conservation monitor on hook H2 (live Basic objects: constructed minus destroyed must return to zero after the second pass of each program in the same process); hangs re-run alone before they count',
+         'The mixed API workloads of C03 (every node class, sets, logic, matrix expressions, series, solve, polynomials, printers, parser, serialisation, lambda evaluators), each executed twice per process.',
+         'Astronomically large literals under size-sensitive functions (gamma, primorial, ...) are replaced by small ones: their cost is a resource question, not memory safety.', 'DESIGN.md 3/C40'),
 }
 
 def main():
